@@ -90,9 +90,9 @@ def spec1d_case(draw, layouts=LAYOUTS, min_nf=2, max_nf=40, kinds=VALUE_KINDS,
 @st.composite
 def spec2d_case(draw, layouts=LAYOUTS, min_nf=2, max_nf=24, min_nd=8, max_nd=144,
                 uniform_only=False, allowed_nd=None, kinds=VALUE_KINDS, allow_zero_f=True,
-                max_len=3, max_cells=40000, min_len=1):
+                max_len=3, max_cells=40000, min_len=1, relabel=False):
     f = draw(freq_grid(min_nf, max_nf, allow_zero=allow_zero_f))
-    dg = draw(dir_grid(min_nd, max_nd, uniform_only=uniform_only, allowed_n=allowed_nd))
+    dg = draw(dir_grid(min_nd, max_nd, uniform_only=uniform_only, allowed_n=allowed_nd, relabel=relabel))
     nf, nd = len(f), len(dg["dir"])
     lay = draw(layout(layouts, max_len=max_len, min_len=min_len))
     n = int(np.prod(lay["shape"])) if lay["shape"] else 1
